@@ -82,7 +82,19 @@ class Register:
             elif alias_from.size is not None and not isinstance(
                 alias_from.size, AnnotatedValue
             ):
+                if alias_slice.step == 0:
+                    raise JaqalError("Slice step cannot be zero.")
                 if alias_slice.stop > alias_from.size:
+                    raise JaqalError("Index out of range.")
+                indices = range(
+                    alias_slice.start or 0,
+                    alias_slice.stop,
+                    1 if alias_slice.step is None else alias_slice.step,
+                )
+                if indices and not (
+                    0 <= indices[0] < alias_from.size
+                    and 0 <= indices[-1] < alias_from.size
+                ):
                     raise JaqalError("Index out of range.")
 
     def __hash__(self):
@@ -206,7 +218,7 @@ class Register:
 
         context = context or {}
 
-        if self.size is not None and idx >= self.size:
+        if idx < 0 or (self.size is not None and idx >= int(self.size)):
             raise JaqalError("Index out of range.")
         if self.fundamental:
             return (self, idx)
@@ -286,6 +298,10 @@ class NamedQubit:
                     f"Cannot slice parameter {alias_from.name} of non-register kind {alias_from.kind}."
                 )
         else:
+            if not isinstance(alias_index, int):
+                raise JaqalError(f"Qubit index {alias_index} is not an integer.")
+            if alias_index < 0:
+                raise JaqalError("Index out of range.")
             try:
                 from_size = int(alias_from.size)
             except JaqalError:
